@@ -179,6 +179,21 @@ def float_relations(chk: Check, n):
             continue
         pw = {(r.effect_size, r.n_obs): r.power for r in grid}
         pwc = {(r.effect_size, r.n_obs): r.power for r in gridc}
+        # the same options taken from the configuration in force at construction (nothing passed explicitly) describe the
+        # same test: allocation ratio, alpha, alternative, equal_var, use_t must be honoured by Mean and RatioOfMeans alike
+        try:
+            with tt.config_context(**kw):
+                m_cfg = tt.Mean("x", effect_size=tuple(effs), n_obs=tuple(ns))
+                r_cfg = tt.RatioOfMeans("x", effect_size=tuple(effs), n_obs=tuple(ns))
+            for nm, g in (("Mean", m_cfg.solve_power(data, "power")), ("RatioOfMeans", r_cfg.solve_power(data, "power"))):
+                for r, rc in zip(grid, g):
+                    if not (r.power == rc.power or (math.isnan(r.power) and math.isnan(rc.power))):
+                        chk.fail(f"{nm} built under a configuration with the options gives another power than the same "
+                                 "options passed explicitly", dict(input=inp, effect=r.effect_size, n_obs=r.n_obs,
+                                                                   explicit=r.power, from_config=rc.power))
+                        break
+        except Exception as ex:  # noqa: BLE001
+            chk.fail("solve_power raised for a metric configured through config_context", dict(input=inp, error=repr(ex)))
         # an uninformative covariate (sample variance exactly 0, zero covariance) leaves the power unchanged
         const = A(1000, {"x": mean, "k": 7.0}, {"x": var, "k": 0.0}, {("k", "x"): 0.0})
         try:
